@@ -81,6 +81,57 @@ def own_checkpoints(ctx, res):
                                                "table's) is accepted by a node whose head is at height %d" % j})
                     if kind == "checkpointed" and v != "ok":
                         res.violations.append({**info, "kind": "the block with the checkpoint's id is refused"})
+        # an alternative history that never claims the checkpointed height: on the last block below the horizon, a block that
+        # claims the height just above the horizon (its reward data says the same, its evidence is ground until the sample does
+        # not ask for the height it skips) — valid in every respect except that its height is not its parent's plus one
+        par_ = main[horizon - 1]
+        view_ = chain.view(tree.cs, par_.hash())
+        claimed = horizon + 1
+        from . import ledger as _ledger
+        cb_ = _ledger.coinbase(claimed, chain.subsidy(claimed), keys.pk(0))
+        root_ = consensus.calc_merkle_root_hash([cb_])
+        ts_ = par_.timestamp + 5
+        skip_blk = None
+        try:
+            tgt_ = consensus.calc_target(view_, claimed, ts_, par_)
+        except Exception:
+            tgt_ = par_.target
+        for nonce_ in range(60000):
+            s_ = BlockSummary(claimed, par_.hash(), root_, ts_, tgt_, nonce_)
+            try:
+                ev_ = consensus.construct_pow_evidence(view_, s_, claimed, [cb_])
+            except Exception:
+                continue
+            b_ = Block(BlockHeader(s_, ev_), [cb_])
+            if b_.hash() < b_.target:
+                skip_blk = b_
+                break
+        if skip_blk is not None:
+            st = CoinState.empty()
+            name = "o%d_skip" % si
+            ops.append("new " + name)
+            impl.append("ok")
+            for b in main[:horizon]:
+                st = st.add_block_no_validation(b)
+                ops.append("addnv %s %s %s" % (name, name, hx(b.serialize())))
+                impl.append("ok")
+            now = skip_blk.timestamp + 200
+            try:
+                st.add_block(skip_blk, now)
+                v = "ok"
+            except Exception:
+                v = "rej"
+            ops.append("add x %s %s %d" % (name, hx(skip_blk.serialize()), now))
+            impl.append(v)
+            res.case(("own-skip", si, horizon))
+            res.count("own_table:height_skipping_competitor")
+            if v == "ok":
+                res.violations.append({"kind": "a block on the last block below the horizon that claims the height above the horizon "
+                                               "(skipping the checkpointed height %d) is accepted: an alternative history passes the "
+                                               "checkpoint" % horizon, "scenario": si, "horizon": horizon, "table": known,
+                                       "block": skip_blk.serialize().hex(), "chain": [b.serialize().hex() for b in main[:horizon]]})
+        else:
+            res.count("own_table:height_skipping_competitor_not_found")
         # a node that has no block at all yet (validating a chain from scratch): the table's block 0, another genesis, and
         # parentless competitors at the checkpointed heights
         name = "o%d_empty" % si
